@@ -1,2 +1,118 @@
+// family SRV (6): the documented request loop over a scripted transport; see coq/Run/Srv.v and coq/Model/Serve.v
 use crate::common::*;
-pub fn run_srv(_c: &mut Cur, _out: &mut Vec<i128>) {}
+use crate::fam_api::post;
+use crate::with_size;
+use fixed_buffer::*;
+use std::io::{ErrorKind, Read, Write};
+
+fn plen_sel(size: u64, kind: u64, line: &[u8]) -> u64 {
+    match kind {
+        0 => line.first().copied().unwrap_or(0) as u64,
+        1 => size + 1,
+        2 => 0,
+        _ => line.len() as u64,
+    }
+}
+fn enc_stat(out: &mut Vec<i128>, r: &Result<(), std::io::Error>) {
+    match r {
+        Ok(()) => out.push(0),
+        Err(e) => {
+            out.push(1);
+            out.push(code_of(e.kind()))
+        }
+    }
+}
+// Write::write_all as std implements it (retry Interrupted, WriteZero on Ok(0)); WriteZero is reported as Other(7) like the model
+fn write_all<Wr: Write>(w: &mut Wr, mut data: &[u8]) -> Result<(), std::io::Error> {
+    while !data.is_empty() {
+        match w.write(data) {
+            Ok(0) => return Err(std::io::Error::from(ErrorKind::Other)),
+            Ok(n) => data = &data[n..],
+            Err(ref e) if e.kind() == ErrorKind::Interrupted => {}
+            Err(e) => return Err(e),
+        }
+    }
+    Ok(())
+}
+
+fn srv_sized<const N: usize>(c: &mut Cur, out: &mut Vec<i128>) {
+    let kind = c.next();
+    let stream = c.take_list();
+    let rsc = c.take_script();
+    let wsc = c.take_wscript();
+    let dests = c.take_list();
+    let nreq = c.next();
+    let mut buf: FixedBuf<N> = FixedBuf::new();
+    let mut tr = ScriptRW { r: ScriptReader::new(stream, rsc), w: ScriptWriter::new(wsc) };
+    for _ in 0..nreq {
+        out.push(MOP);
+        let r = std::panic::catch_unwind(std::panic::AssertUnwindSafe(|| {
+            let mut o: Vec<i128> = Vec::new();
+            let line: Vec<u8> = match buf.read_frame(&mut tr, deframe_line) {
+                Ok(Some(l)) => l.to_vec(),
+                Ok(None) => {
+                    o.push(1);
+                    return (o, false);
+                }
+                Err(e) => {
+                    o.push(2);
+                    o.push(code_of(e.kind()));
+                    return (o, false);
+                }
+            };
+            let n = plen_sel(N as u64, kind, &line);
+            let mut payload: Vec<u8> = Vec::new();
+            let mut chain = ReadWriteChain::new(&mut buf, &mut tr);
+            let dr: Result<(), std::io::Error> = {
+                let mut take = ReadWriteTake::new(&mut chain, n);
+                let mut i = 0usize;
+                loop {
+                    let d = if i < dests.len() { dests[i] as usize } else { 8 };
+                    i += 1;
+                    let mut dest = vec![0xDDu8; d];
+                    match take.read(&mut dest) {
+                        Ok(0) if d == 0 => {}
+                        Ok(0) => break Ok(()),
+                        Ok(k) => payload.extend_from_slice(&dest[..k]),
+                        Err(e) => break Err(e),
+                    }
+                }
+            };
+            let wr = if dr.is_ok() {
+                let resp = [79u8, 75, (payload.len() % 256) as u8, 10];
+                write_all(&mut chain, &resp)
+            } else {
+                Ok(())
+            };
+            o.push(0);
+            enc_bytes(&mut o, &line);
+            enc_bytes(&mut o, &payload);
+            enc_stat(&mut o, &dr);
+            enc_stat(&mut o, &wr);
+            let cont = dr.is_ok() && wr.is_ok();
+            (o, cont)
+        }));
+        match r {
+            Ok((o, cont)) => {
+                out.extend(o);
+                if !cont {
+                    break;
+                }
+            }
+            Err(_) => {
+                out.push(PANIC);
+                break;
+            }
+        }
+    }
+    post(&mut buf, out);
+    out.push(-6);
+    out.push(tr.r.pos as i128);
+    out.push(-7);
+    out.push(tr.w.log.len() as i128);
+    out.extend(tr.w.log.iter());
+}
+pub fn run_srv(c: &mut Cur, out: &mut Vec<i128>) {
+    let size = c.next();
+    with_size!(size, srv_sized, c, out)
+}
